@@ -51,6 +51,70 @@ def make_files(tier):
     return files
 
 
+AT_HDR, AT_SYNC, AT_CLEAN, AT_NONE, AT_PAYLOAD = 0, 1000, -1, -2, -3
+
+
+def abstract_file(f, bad_sync=(), dn=None, items=None, cut=(0, AT_NONE)):
+    """the file as ContainerReader.tla sees it: per block the declared count, what the payload holds, the sync marker"""
+    blocks = []
+    for bi, b in enumerate(f["blocks"]):
+        it = ["good"] * b["count"]
+        if items and bi in items:
+            it = items[bi]
+        blocks.append({"n": b["count"] + (dn or {}).get(bi, 0), "items": it, "sync": "bad" if bi in bad_sync else "ok"})
+    return {"ev": "file", "blocks": blocks, "cutb": cut[0], "cutat": cut[1]}
+
+
+def item_lengths(f):
+    """byte length of every written value's encoding, per block (the null codec stores them as they are)"""
+    G = container.item_schema()
+    out, k = [], 0
+    for b in f["blocks"]:
+        out.append([len(pyavro.encode(G, 1, v)) for v in f["values"][k:k + b["count"]]])
+        k += b["count"]
+    return out
+
+
+def cut_shape(f, cut):
+    if cut < f["hlen"]:
+        return None                      # the header itself is cut: the reader does not open
+    lens = item_lengths(f)
+    for bi, b in enumerate(f["blocks"]):
+        if cut == b["begin"]:
+            return abstract_file(f, cut=(bi + 1, AT_CLEAN))
+        if b["begin"] < cut < b["end"]:
+            hdr = len(pyavro.enc_long(b["count"]) + pyavro.enc_long(b["size"]))
+            pay0, pay1 = b["begin"] + hdr, b["end"] - 16
+            if cut < pay0:
+                return abstract_file(f, cut=(bi + 1, AT_HDR))
+            if cut >= pay1:
+                return abstract_file(f, cut=(bi + 1, AT_SYNC))
+            if f["codec"] != "null":
+                return abstract_file(f, cut=(bi + 1, AT_PAYLOAD))
+            off = pay0
+            for j, n in enumerate(lens[bi]):
+                if cut < off + n:
+                    return abstract_file(f, cut=(bi + 1, j + 1))
+                off += n
+            return None
+    return None
+
+
+def header_shape(f, bi, dc, ds):
+    if dc:
+        return abstract_file(f, dn={bi: dc})
+    if f["codec"] != "null":
+        return None                      # a compressed payload one byte short / long: what the decompressor makes of it is not modelled
+    n = f["blocks"][bi]["count"]
+    if ds > 0:
+        return abstract_file(f, items={bi: ["good"] * n + ["junk"]})
+    # one byte short: the last object runs off the block; a slice reader then goes on right after the declared size, where the
+    # sync marker is misaligned (the stream reader never gets there: its I/O error is final)
+    shp = abstract_file(f, items={bi: ["good"] * (n - 1) + ["short"]})
+    shp["_short_block"] = bi
+    return shp
+
+
 def reencode_block_header(f, bi, dcount=0, dsize=0):
     """file with block bi's count / size varints re-encoded with a delta"""
     b = f["blocks"][bi]
@@ -69,12 +133,20 @@ def run(tier, seed):
     files = make_files(tier)
     rng = random.Random(seed)
     readers = [{"kind": "slice"}, {"kind": "chunks", "sched": [1]}, {"kind": "chunks", "sched": [7]}, {"kind": "chunks", "sched": []}]
-    cmds, meta = [], []
+    cmds, meta, shapes = [], [], []
 
-    def add(f, data, damage, what, rd, extra=None):
+    def add(f, data, damage, what, rd, extra=None, shape=None):
         c = {"op": "reader", "id": len(cmds), "bytes": data, "reader": dict(rd, **(extra or {})), "calls": len(f["values"]) + 2 * 3 + 8}
         cmds.append(c)
         meta.append((f, damage, what))
+        if shape is not None:       # the abstract file for Trace_ReaderImpl (None: judged by the abstract rules only)
+            is_slice = rd.get("kind") == "slice"
+            shape = dict(shape, kind="slice" if (is_slice and f["codec"] == "null") else "whole_io" if (is_slice or f["codec"] == "snappy") else "stream")
+            sb = shape.pop("_short_block", None)
+            if sb is not None and shape["kind"] == "slice":
+                shape = json.loads(json.dumps(shape))
+                shape["blocks"][sb]["sync"] = "bad"
+        shapes.append(shape)
 
     for f in files:
         data = f["bytes"]
@@ -82,7 +154,7 @@ def run(tier, seed):
         # truncation at every offset
         for cut in range(0, n):
             for rd in (readers if tier != "quick" else [readers[cut % 4], readers[(cut + 1) % 4]]):
-                add(f, data[:cut], "truncated", f"truncated at {cut}", rd)
+                add(f, data[:cut], "truncated", f"truncated at {cut}", rd, shape=cut_shape(f, cut))
         # named corruptions
         for bi, b in enumerate(f["blocks"]):
             sync_at = b["end"] - 16
@@ -90,13 +162,13 @@ def run(tier, seed):
                 d = list(data)
                 d[sync_at + k] ^= 0x01
                 for rd in readers[:2]:
-                    add(f, d, "sync", f"sync marker of block {bi} byte {k} changed", rd)
+                    add(f, d, "sync", f"sync marker of block {bi} byte {k} changed", rd, shape=abstract_file(f, bad_sync=[bi]))
             for dc, ds, what in ((1, 0, "count+1"), (-1, 0, "count-1"), (0, 1, "size+1"), (0, -1, "size-1")):
                 if b["count"] + dc < 0 or b["size"] + ds < 0:
                     continue
                 d = reencode_block_header(f, bi, dc, ds)
                 for rd in readers[:3]:
-                    add(f, d, "named", f"block {bi} {what}", rd)
+                    add(f, d, "named", f"block {bi} {what}", rd, shape=header_shape(f, bi, dc, ds))
             if f["codec"] == "snappy":
                 d = list(data)
                 d[sync_at - 1] ^= 0x10      # last byte of the CRC trailer
@@ -105,7 +177,7 @@ def run(tier, seed):
         for k in (range(16) if tier != "quick" else (0, 15)):
             d = list(data)
             d[f["hlen"] - 16 + k] ^= 0x80      # the header's own sync marker: every block's marker now differs from it
-            add(f, d, "named", f"header sync marker byte {k} changed", readers[k % 2])
+            add(f, d, "named", f"header sync marker byte {k} changed", readers[k % 2], shape=abstract_file(f, bad_sync=list(range(len(f["blocks"])))))
         # arbitrary single-byte corruption at every offset
         masks = [("x", 0x01), ("x", 0x80), ("=", 0x00), ("=", 0xFF)]
         for off in range(n):
@@ -162,7 +234,65 @@ def run(tier, seed):
             if not rest:
                 break
             res = common.validate_trace("Trace_Reader", "Trace_Reader.cfg", rest, timeout=1500)
+    # ---- the same reads, state by state, against the reader machine (ContainerReader.tla) where the driver knows the abstract file
+    mc = common.run_tlc("MC_ContainerReader", "MC_ContainerReader.cfg", workers=4, timeout=900)
+    common.require_tlc_ok(mc, "MC_ContainerReader (the reader machine obeys C17's rules on all small damaged files)")
+    mm = common.run_tlc("MC_ContainerReader", "MC_ContainerReader_mut.cfg", workers=2, timeout=300)
+    if "is violated" not in mm["out"]:
+        raise common.ToolError("MC_ContainerReader: the mutated machine (I/O error not latched) is not refuted")
+    ievents, iowner = [], []
+    for i, (c, (f, damage, what), o, shp) in enumerate(zip(cmds, meta, obs, shapes)):
+        if shp is None or o.get("res") != "ok" or o.get("init") != "ok":
+            continue
+        ievents.append(shp)
+        iowner.append(i)
+        for r_, src in zip(C05.read_event(f["values"], o["results"], damage)["results"], o["results"]):
+            ievents.append({"ev": "call", "r": r_["r"], "item": r_["item"], "st": src.get("st", "unknown"), "left": src.get("left", -1), "latch": src.get("latch", -1)})
+            iowner.append(i)
+    per = max(400, (len(ievents) + common.NCPU - 1) // common.NCPU)
+    chunks, owners_c, cur, cur_o = [], [], [], []
+    for ev, ow in zip(ievents, iowner):
+        if ev["ev"] == "file" and len(cur) >= per:
+            chunks.append(cur)
+            owners_c.append(cur_o)
+            cur, cur_o = [], []
+        cur.append(ev)
+        cur_o.append(ow)
+    if cur:
+        chunks.append(cur)
+        owners_c.append(cur_o)
+    iresults = common.validate_traces_parallel("Trace_ReaderImpl", "Trace_ReaderImpl.cfg", chunks, timeout=2400) if chunks else []
+    for ch, ow, res in zip(chunks, owners_c, iresults):
+        rest, rest_o, guard = ch, ow, 0
+        while not res["accepted"] and guard < 6:
+            guard += 1
+            fu = res["first_unmatched"]
+            if fu is None or fu < 1 or fu > len(rest):
+                raise common.ToolError("Trace_ReaderImpl failed without a usable reject index:\n" + res["out"][-2500:])
+            i = rest_o[fu - 1]
+            f, damage, what = meta[i]
+            rep.violation(f"{f['codec']} file, {what}, reader {cmds[i]['reader']}: call #{len([1 for x in rest_o[:fu] if x == i]) - 1} is not what the reader machine does "
+                          f"({[(r['r'], r.get('st'), r.get('left'), r.get('latch')) for r in obs[i]['results']][:8]})",
+                          {"fam": "reader_damage", "cmd": cmds[i], "codec": f["codec"], "damage": damage, "what": what, "shape": shapes[i]},
+                          expected="ContainerReader.tla (Trace_ReaderImpl)", observed=obs[i]["results"])
+            j = fu
+            while j < len(rest) and rest[j]["ev"] != "file":
+                j += 1
+            rest, rest_o = rest[j:], rest_o[j:]
+            if not rest:
+                break
+            res = common.validate_trace("Trace_ReaderImpl", "Trace_ReaderImpl.cfg", rest, timeout=2400)
+    # binding: a wrong hook state must be rejected
+    for k0, ev in enumerate(ievents):
+        if ev["ev"] == "call" and ev["st"] == "in_block" and ievents[k0 - 1]["ev"] == "file":
+            good = ievents[k0 - 1:k0 + 1]
+            badt = [good[0], dict(good[1], left=good[1]["left"] + 1)]
+            if common.validate_trace("Trace_ReaderImpl", "Trace_ReaderImpl.cfg", good)["accepted"] and \
+                    common.validate_trace("Trace_ReaderImpl", "Trace_ReaderImpl.cfg", badt)["accepted"]:
+                raise common.ToolError("Trace_ReaderImpl accepts a wrong hook state: vacuous")
+            break
     cov = {
+        "reader_machine_states": mc["distinct"], "reads_validated_state_by_state": len([e for e in ievents if e["ev"] == "file"]),
         "states": max(1, len(events)), "transitions": max(1, len(events)), "traces_validated_against_impl": nch,
         "evaluations": len(cmds), "distinct_nontrivial": len(cmds),
         "rule": "for one 3-block file per codec (6 codecs): truncation at EVERY byte offset; every byte of every block's sync marker changed; declared "
